@@ -358,7 +358,7 @@ def main():
         "the assumption that no process-global state matters is checked by the real MultiPool conformance runs (traces_validated_against_impl)",
         "rejection_sample with equal seeds: the accepted set is compared across paths; linear draws are not (streams differ by design)",
     ]
-    return chk.finish()
+    return chk.finish(run_case)
 
 
 def replay(doc):
